@@ -875,6 +875,8 @@ class SymExec:
     def enter_block(self, st, fr, bb):
         """Loop-header bookkeeping; returns False when the path ends here (back edge)."""
         loops, loopw = self.loops_of(fr.body)
+        if bb in loops and self.unrollable(st, fr, bb):
+            return True        # iteration over an array whose elements are known: executed element by element
         if bb in loops:
             key = (fr.fid, bb)
             if self.peel:
@@ -924,6 +926,34 @@ class SymExec:
                         st.nhv += 1
                         st.store[root] = ("hvmem", root[1], tag, bb)
         return True
+
+    def unrollable(self, st, fr, bb):
+        """the loop headed by bb pulls from an iterator over an array value with known elements"""
+        blk = fr.body.blocks[bb]
+        t = blk["term"]
+        if t["k"] != "call" or "fn" not in t["callee"]:
+            return False
+        nm = t["callee"].get("res") or t["callee"]["fn"]
+        if not (nm.endswith("Iterator>::next") or nm == "core::iter::traits::iterator::Iterator::next"):
+            return False
+        a = t["args"][0]
+        if a["k"] not in ("move", "copy") or a["pl"]["p"]:
+            return False
+        l = a["pl"]["l"]
+        pl = None
+        for _ in range(3):
+            d = [s for s in blk["stmts"] if s["k"] == "assign" and s["pl"]["l"] == l and not s["pl"]["p"]]
+            if len(d) != 1 or d[0]["rv"]["k"] != "ref":
+                return False
+            pl = d[0]["rv"]["pl"]
+            if pl["p"] == ["deref"]:
+                l = pl["l"]
+                continue
+            break
+        if pl is None or pl["p"]:
+            return False
+        v = self.local_val(st, fr, pl["l"])
+        return v[0] in ("iter", "iterk") and v[1][0] == "array" and len(v[1][1]) <= 8
 
     def step(self, st, work):
         """Run the top frame's current block; push successor states."""
@@ -1585,6 +1615,13 @@ class SymExec:
             p = args[0]
             if p[0] == "ptr":
                 cur = self.load(st, p[1], p[2])
+                if cur[0] in ("iter", "iterk") and cur[1][0] == "array" and len(cur[1][1]) <= 8:
+                    k = cur[2] if cur[0] == "iterk" else 0
+                    elems = cur[1][1]
+                    self.store_ptr(st, p, ("iterk", cur[1], k + 1))
+                    if k < len(elems):
+                        return ("agg", "core::option::Option", "Some", 1, (("0", elems[k]),))
+                    return ("agg", "core::option::Option", "None", 0, ())
                 if cur[0] == "iter" and self.count_next:
                     self.store_ptr(st, p, ("iterk", cur[1], 1))
                     return ("next", cur[1], 0)
